@@ -34,6 +34,29 @@ TIMEOUT = 10
 INST = os.path.join(vlib.REPO, "check", "instances")
 SETDIR = os.path.join(vlib.REPO, "settings")
 GOOD = os.path.join(INST, "afiro.mps")
+# 6 x 2: min -x0 - x1, rows a.x <= rhs, x >= 0, optimum -4
+TALL_MPS = b"""NAME          tall
+ROWS
+ N  obj
+ L  C0
+ L  C1
+ L  C2
+ L  C3
+ L  C4
+ L  C5
+COLUMNS
+    x0        obj       -1.0   C0        1.0
+    x0        C1        1.0   C3        1.0
+    x0        C4        -1.0   C5        1.0
+    x1        obj       -1.0   C0        1.0
+    x1        C2        1.0   C3        -1.0
+    x1        C4        1.0   C5        2.0
+RHS
+    rhs       C0        4.0   C1        3.0
+    rhs       C2        3.0   C3        2.0
+    rhs       C4        2.0   C5        7.0
+ENDATA
+"""
 
 
 def hexs(b):
@@ -217,7 +240,8 @@ def gen_bas(r, rn, cn):
     for c in r.sample(cn, r.randint(0, min(len(cn), 12))):
         k = r.randrange(6)
         if k <= 1 and rows:
-            out.append(b" %s %s  %s" % (r.choice([b"XU", b"XL"]), c, rows.pop()))
+            # the writer's layout (column name padded to eight characters); short lines are taken as fixed format by the reader
+            out.append((b" %s %-8s  %s" if r.random() < 0.8 else b" %s %s  %s") % (r.choice([b"XU", b"XL"]), c, rows.pop()))
         elif k == 2:
             out.append(b" UL %s" % c)
         elif k == 3:
@@ -1164,6 +1188,29 @@ def build_inputs(ck, rundir, quick):
             if hangprone > hcap + 4:
                 continue
         add("b%d.bas" % k, r.choice(["bas0", "bas1", "bas1"]), d, "bas:" + fam, GOOD)
+    # 4b. basis files for a tall LP (more rows than columns) in both representations: in row representation the basis matrix has
+    #     dimension nCols, so a file with more X-lines (distinct rows) than columns must be rejected or repaired, not stored
+    tall = os.path.join(rundir, "in", "tall.mps")
+    with open(tall, "wb") as f:
+        f.write(TALL_MPS)
+    trn = [b"C%d" % i for i in range(6)]
+    tcn = [b"x0", b"x1"]
+    nt = 0
+    for nx in range(0, 7):
+        for variant in range(2 if quick else 6):
+            rows = list(trn)
+            r.shuffle(rows)
+            out = [b"NAME  tall"]
+            for i in range(nx):
+                out.append(b" %s %-8s  %s" % (r.choice([b"XU", b"XL"]), tcn[i % 2] if variant % 2 == 0 else r.choice(tcn), rows.pop()))
+            for c in tcn:
+                if r.random() < 0.3:
+                    out.append(b" %s %s" % (r.choice([b"UL", b"LL"]), c))
+            out.append(b"ENDATA")
+            d = b"\n".join(out) + b"\n"
+            for t in (("bas1r", "bas0", "bas1s") if quick else ("bas0", "bas1", "bas0r", "bas1r", "bas1c", "bas0s", "bas1s", "bas1rs", "bas1cs")):
+                add("t%d-%s.bas" % (nt, t), t, d, "bas-tall:%d-xlines" % nx, tall)
+                nt += 1
     # 5. settings files
     ns = 25 if quick else 300
     for k in range(ns):
